@@ -63,6 +63,20 @@ def shard(arg):
             v = check(ws, {"op": "green.greenback", "depth": depth}, out, case, depth >= 2, ["greenback", "greenback.depth.%d" % depth])
             if v:
                 out.violation(v[0]["desc"], case, "3.12", obs=v[0].get("obs"))
+            for portal in ("run", "run_sync"):
+                # how the task got its portal: ensure_portal() (above), with_portal_run(async fn), with_portal_run_sync(fn)
+                case = {"greenback_depth": depth, "portal": portal}
+                v = check(ws, {"op": "green.greenback", "depth": depth, "portal": portal}, out, case, depth >= 1,
+                          ["greenback", "greenback.portal." + portal])
+                if v:
+                    out.violation(v[0]["desc"], case, "3.12", obs=v[0].get("obs"))
+            for awk in (1, 2):
+                # what is handed to await_() is an awaitable object, not a coroutine
+                case = {"greenback_depth": depth, "awaitable": awk}
+                v = check(ws, {"op": "green.greenback", "depth": depth, "awaitable": awk}, out, case, depth >= 1,
+                          ["greenback", "greenback.await_of_a_non_coroutine_awaitable.%d" % awk])
+                if v:
+                    out.violation(v[0]["desc"], case, "3.12", obs=v[0].get("obs"))
             for spawn in (1, 2):
                 # the synchronous levels run their await_ bridge in greenlets nested below the portal's (inside view only)
                 case = {"greenback_depth": depth, "spawn": spawn}
@@ -113,7 +127,8 @@ def replay(ctx, data):
         elif "orphan" in case:
             req = {"op": "green.orphan", "how": case["orphan"], "depth": case.get("depth", 2)}
         elif "greenback_depth" in case:
-            req = {"op": "green.greenback", "depth": case["greenback_depth"], "spawn": case.get("spawn", 0)}
+            req = {"op": "green.greenback", "depth": case["greenback_depth"], "spawn": case.get("spawn", 0),
+                   "awaitable": case.get("awaitable", 0), "portal": case.get("portal", "ensure")}
         elif "other_thread" in case:
             req = {"op": "green.other_thread"}
         else:
